@@ -74,7 +74,8 @@ def run_job(job):
             setattr(eng, k, v)
         fn = hm.build(job)
         try:
-            eng.explore(fn, stop_on_cex=True, prefix=job.get("prefix"), frontier_depth=job.get("frontier_depth"))
+            eng.explore(fn, stop_on_cex=True, prefix=job.get("prefix"), frontier_depth=job.get("frontier_depth"),
+                        slice_s=job.get("slice_s", 45))
         except Unsupported as e:
             res["status"] = "inconclusive"
             res["error"] = "unsupported: " + " ".join(str(e).split())[:300]
@@ -187,6 +188,7 @@ def check(pid, tier, seed, only=None, workers=None, verbose=False):
     nworkers = workers or min(16, os.cpu_count() or 4)
     results = []
     ctx = mp.get_context("spawn")
+    nshard = [0]
     with cf.ProcessPoolExecutor(max_workers=nworkers, mp_context=ctx, initializer=_worker_init, initargs=(os.getpid(),)) as ex:
         pending = {}
         for j in jobs:
@@ -210,11 +212,14 @@ def check(pid, tier, seed, only=None, workers=None, verbose=False):
                     print(f"  [{r['job']['name']}] {r['status']} paths={r['stats'].get('paths')} "
                           f"q={r['stats'].get('queries')} {r['wall_s']}s {r['outcomes']} {r.get('error') or ''}",
                           file=sys.stderr, flush=True)
-                if r["frontier"] and r["status"] == "ok":
+                if r["frontier"] and r["status"] == "ok" and not r["violations"]:
                     base = j["name"].split("#")[0]
-                    for n, pref in enumerate(r["frontier"]):
-                        sj = dict(j, prefix=pref, frontier_depth=None, shard_depth=None, name=f"{base}#shard{n}",
-                                  keep_paths=1)
+                    for pref in r["frontier"]:
+                        nshard[0] += 1
+                        # every fourth shard replays a path witness on the real stack (the replay costs about as much as
+                        # exploring a dozen paths)
+                        sj = dict(j, prefix=pref, frontier_depth=None, shard_depth=None, name=f"{base}#shard{nshard[0]}",
+                                  keep_paths=1 if nshard[0] % 4 == 0 else 0)
                         pending[ex.submit(run_job, sj)] = sj
 
     # ---- aggregate
